@@ -83,6 +83,16 @@ fn compartmentalize_map(map: &mut Mapping) {
     }
 }
 
+/// A mapping that holds a `<any>` node is a compartment created for the wildcard
+/// entries of deeper modules, not the value of a property.
+fn is_compartment(value: &Value) -> bool {
+    if let Value::Mapping(map) = value {
+        map.contains_key(ANY)
+    } else {
+        false
+    }
+}
+
 impl Props {
     pub fn update_from(&mut self, base: &Value, path: &[&str]) {
         if path.is_empty() {
@@ -91,7 +101,7 @@ impl Props {
                     let Value::String(k) = k else {
                         continue;
                     };
-                    if k.contains(ANY) {
+                    if k.contains(ANY) || is_compartment(v) {
                         continue;
                     }
                     self.set(k.clone(), v.clone());
@@ -124,6 +134,9 @@ impl Props {
                 let Some(entry) = map.get(matching_key) else {
                     continue;
                 };
+                if is_compartment(entry) {
+                    continue;
+                }
                 let remaining = &matching_key[(key.len() + 1)..];
                 self.set(remaining.to_string(), entry.clone());
             }
